@@ -178,6 +178,14 @@ def generate(rng, tier):
                 uni, init = units + extra, [list(u) for u in units]
         case.update({"mode": "custom", "demands": demands, "universe": uni, "initial": init,
                      "peer": rng.choice(["best", "best", "first_improving", "first_improving", "worst_improving", "worst_improving", "always_best"])})
+        if rng.random() < 0.08 and m >= 2 and len(init) >= 2:
+            # a start pool that cannot (yet) produce item z although the pricing function can supply such columns: whatever the
+            # solver does with it - raise, or generate what is missing - a run stopped before that happened must not present a plan
+            z = rng.randrange(m)
+            rest = [c for c in init if c[z] == 0]
+            if rest and any(c[z] for c in uni):
+                demands[z] = max(1, demands[z])
+                case.update({"initial": rest, "uncovered_start": True, "peer": "best"})
     if case["mode"] == "custom" and case["solver"] == "bp" and rng.random() < 0.3:
         # a fixed pool of rich columns, handed over completely, with a pricing function that offers nothing more:
         # every node LP is exact, so every OPTIMAL is a claimed proof; deep trees with integer nodes next to open siblings
@@ -195,7 +203,7 @@ def generate(rng, tier):
                 pool.append(c)
         case.update({"demands": demands, "universe": pool, "initial": [list(c) for c in pool], "peer": "fixed_pool"})
     case["max_nodes"] = rng.choice([50, 200]) if case["solver"] == "bp" else None
-    if case["mode"] == "custom" and rng.random() < 0.3:
+    if case["mode"] == "custom" and not case.get("uncovered_start") and rng.random() < 0.3:
         case["initial"] = [list(c) for c in case["universe"]]  # the complete column set is handed over up front
         if rng.random() < 0.5:
             case["peer"] = "fixed_pool"  # ... and the pricing function knows it: there is no further column, ever
@@ -211,7 +219,7 @@ def generate(rng, tier):
     # a relative gap tolerance below 1/20 cannot legitimise a non-minimal plan on these instances (objective <= 20 rolls,
     # integer objective), so OPTIMAL must still mean minimal
     case["gap_tol"] = rng.choice([None, None, 0.01, 0.04]) if case["solver"] == "bp" else None
-    if case["mode"] == "custom" and case["initial"] and rng.random() < 0.45:
+    if case["mode"] == "custom" and case["initial"] and not case.get("uncovered_start") and rng.random() < 0.45:
         for _ in range(rng.choice([1, 1, 2])):  # a column listed twice (pools assembled from several sources repeat columns)
             col = list(rng.choice(case["initial"]))
             case["initial"].insert(rng.randrange(len(case["initial"]) + 1), col)
@@ -222,6 +230,9 @@ def generate(rng, tier):
                 i = rng.choice(big)
                 case["demands"][i] = col[i] * rng.choice([1, 1, 2]) + rng.randrange(1, col[i])
     case["seq_as"] = rng.choice(["list", "list", "tuple"])
+    case["consume_plan"] = rng.random() < 0.3  # the caller writes into the plan dict it was handed
+    if rng.random() < 0.04 and not case.get("uncovered_start"):
+        case["demands"] = [0] * len(case["demands"])  # nothing demanded: the trivial answers (no rolls) are answers too
     case["faults"] = {
         "cancel": rng.random() < 0.8,
         "time_limit": rng.random() if rng.random() < 0.4 else None,
@@ -324,8 +335,8 @@ def judge(case, v, o: Outcome, label, opt, faulted, fault_kind):
         o.violate(PROP, "no_return", f"{label}: {solver} did not return within {STEP_LIMIT} events", **key)
         return
     if v["exc"] is not None:
-        if opt is None:
-            # no plan exists: raising presents no plan, so the statement is not touched (solve_cg's custom mode raises
+        if opt is None or case.get("uncovered_start"):
+            # no plan exists (or the start pool cannot produce an item and the solver refuses it): raising presents no plan, so the statement is not touched (solve_cg's custom mode raises
             # OverflowError from ceil(inf) here on the current tree)
             o.probe("exception_on_uncoverable_pool")
             return
@@ -367,6 +378,10 @@ def judge(case, v, o: Outcome, label, opt, faulted, fault_kind):
     if abs(res.objective - total) > 1e-6:
         o.violate(PROP, "objective_mismatch", f"{label}: objective {res.objective!r} but the plan uses {total} rolls", **key)
         return
+    if case.get("consume_plan") and isinstance(sol, dict):
+        # the plan handed back is the caller's: it books two more rolls of a pattern of its own into it.  Nothing the library
+        # keeps may change with that (judged on the calls that follow - in this case and in later cases of the same process)
+        sol[tuple([0] * m)] = sol.get(tuple([0] * m), 0) + 2
     if opt is not None:
         if total < opt:
             raise AssertionError(f"reference optimum {opt} above a valid plan of {total}: oracle bug ({case})")
@@ -392,6 +407,13 @@ def execute(case) -> Outcome:
     o.steps += base["stats"]["pricing_calls"]
     if base["stats"]["peer_unusual"]:
         o.fault("peer_unusual", base["stats"]["peer_unusual"])
+    if case.get("uncovered_start"):
+        for lab, pol, mi in (("max_iter=0 on a start pool that cannot produce every item", {"kind": "never"}, 0),
+                             ("cancel@tick1 on a start pool that cannot produce every item", {"kind": "tick", "k": 1}, None)):
+            v = run_variant(case, pol, max_iter=mi)
+            o.fault("budget_cut" if mi == 0 else "cancel@tick")
+            judge(case, v, o, lab, opt, True, "budget" if mi == 0 else "cancel")
+            summ.append([lab[:6], _s(v)])
     if base["skipped"] or base["exc"] is not None or base["res"] is None:
         o.trace = [case["solver"], case["mode"], summ]
         return o
@@ -445,6 +467,18 @@ def execute(case) -> Outcome:
         v = run_variant(sib, {"kind": "never"})
         judge(sib, v, o, "second instance through the same (edited) list objects", opt2, False, "none")
         summ.append(["sib", _s(v)])
+    if case["mode"] == "custom" and isinstance(case["_inputs"]["initial"], list) and case.get("peer") != "fixed_pool":
+        # the caller's own initial_columns list once more, now with a pricing function that offers nothing: the explicit column
+        # set of THIS call is what the caller put into that list - nothing an earlier call may have left in it
+        pool = [tuple(c) for c in case["initial"]]
+        opt3 = cover_min(pool, case["demands"])
+        if opt3 is not None:
+            fp = dict(case, peer="fixed_pool", universe=[list(c) for c in pool])
+            fp["_inputs"] = case["_inputs"]
+            v = run_variant(fp, {"kind": "never"})
+            judge(fp, v, o, "the same initial_columns list again, pricing function silent", opt3, False, "none")
+            o.probe("same_initial_list_again")
+            summ.append(["again", _s(v)])
     o.trace = [case["solver"], case["mode"], summ]
     if base["stats"]["pricing_calls"] >= 2 or (case["solver"] == "bp" and res.iterations >= 2):
         o.nontrivial = True
